@@ -1,13 +1,20 @@
 import TracklibVerif.Lemmas.ViterbiTable
 import TracklibVerif.Lemmas.ViterbiLik
+import TracklibVerif.Lemmas.ViterbiZero
+import TracklibVerif.Lemmas.Hmm
 import Mathlib.Algebra.Order.Monoid.Defs
 import Mathlib.Algebra.Order.Group.Nat
 /-! # C09 — hidden-Markov decoding returns a maximum-likelihood state sequence
 
-Property theorems only (helpers: `Lemmas/Viterbi.lean`, `Lemmas/ViterbiTable.lean`, `Lemmas/ViterbiLik.lean`).
-All statements are about `TV.Viterbi.decode`, the table-building executable model of `HMM.estimate`
+Property theorems only (helpers: `Lemmas/Viterbi.lean`, `Lemmas/ViterbiTable.lean`, `Lemmas/ViterbiLik.lean`,
+`Lemmas/ViterbiZero.lean`, `Lemmas/Hmm.lean`).
+T0–T4c are about `TV.Viterbi.decode`, the table-building executable model of the decoder inside `HMM.estimate`
 that the native driver runs against the real code (`Model/Viterbi.lean`), for a track of `N+1` epochs,
 any numbers of candidate states `t.n k ≥ 1` (they may differ per epoch) and any cost tables.
+T5–T7 are about `TV.Hmm.estimate` (`Model/Hmm.lean`), the call as a whole: the HMM object and its `log` flag
+(`estimate` honours its `log` argument since fix d19cf43: `self.log = self.log or log`), the compilation of the
+candidate states and of the observations from the track, the cost tables of THAT call, and the writing of
+`hmm_inference` (the state object) / `hmm_cost` — for histories of calls on tracks that already carry results.
 
 Reading of the model: `t.obs k l` is `-Plog(STATES[k][l], OBS[k], k)`, `t.trans k m l` is
 `-Qlog(STATES[k][m], STATES[k+1][l], k)`, `t.add` is Python's `+`, `t.big` the `1e300` sentinel; the
@@ -119,6 +126,156 @@ theorem logs_supplied_same (n : Nat → Nat) (p : Nat → Nat → ℝ) (q : Nat 
       = decode (likTables n p q eps big false) N := by
   rw [likTables_log]
 
+/-- **T4c `zero_factors_minimised`** (ℝ; likelihood 0 and the `1e-300` guard). Let the likelihoods returned by `P`
+and `Q` be `0` or in `[a, b]` with `0 < eps ≤ a ≤ b`, and let the guard be small against them:
+`eps · (b + eps)^(2N) < a^(2N+1)` (for the code's `eps = 1e-300`: e.g. `a = 1e-10`, `b = 1`, up to 11 epochs —
+see the example below). Then the decoded sequence has the SMALLEST NUMBER OF ZERO FACTORS among all candidate
+sequences (`nzero` counts the zeros among the `2N+1` likelihoods of a sequence); by T4 it moreover maximises the
+guarded product `Π (v + eps)`, i.e. among the sequences with that number of zeros it maximises — up to the
+guard — the product of the non-zero likelihoods. A zero likelihood is therefore never "impossible" for the
+decoder: it costs `-log eps` = 690.78, and a sequence through zeros is returned exactly when every candidate
+sequence has at least as many. -/
+theorem zero_factors_minimised (n : Nat → Nat) (p : Nat → Nat → ℝ) (q : Nat → Nat → Nat → ℝ) (eps a b big : ℝ)
+    (N : Nat) (hpos : ∀ k, k ≤ N → 0 < n k)
+    (he : 0 < eps) (hea : eps ≤ a) (hab : a ≤ b) (hsep : eps * (b + eps) ^ (2 * N) < a ^ (2 * N + 1))
+    (hp : ∀ k l, k ≤ N → l < n k → p k l = 0 ∨ (a ≤ p k l ∧ p k l ≤ b))
+    (hq : ∀ k m l, k < N → m < n k → l < n (k+1) → q k m l = 0 ∨ (a ≤ q k m l ∧ q k m l ≤ b))
+    (hbig : PathsBelow (likTables n p q eps big false) N)
+    (r : List (Nat × ℝ)) (h : decode (likTables n p q eps big false) (N+1) = .ok r)
+    (σ : Nat → Nat) (hσ : ∀ k, k ≤ N → σ k < n k) :
+    nzero p q (seqOf r) N ≤ nzero p q σ N := by
+  have ha : 0 < a := lt_of_lt_of_le he hea
+  have hp' : ∀ k l, k ≤ N → l < n k → 0 < p k l + eps := by
+    intro k l hk hl
+    rcases hp k l hk hl with h0 | ⟨h1, _⟩
+    · rw [h0]; simpa using he
+    · linarith
+  have hq' : ∀ k m l, k < N → m < n k → l < n (k+1) → 0 < q k m l + eps := by
+    intro k m l hk hm hl
+    rcases hq k m l hk hm hl with h0 | ⟨h1, _⟩
+    · rw [h0]; simpa using he
+    · linarith
+  obtain ⟨hv, hmax, _⟩ := likelihood_form n p q eps big N hpos hp' hq' hbig r h
+  by_contra hc
+  have hlt := lik_lt_of_nzero_lt p q n eps a b N he ha hea hab hsep hp hq σ (seqOf r) hσ hv (by omega)
+  exact absurd (hmax σ hσ) (not_le.mpr hlt)
+
+/-- corollary: when some candidate sequence avoids every zero likelihood, so does the decoded one -/
+theorem zero_avoided (n : Nat → Nat) (p : Nat → Nat → ℝ) (q : Nat → Nat → Nat → ℝ) (eps a b big : ℝ)
+    (N : Nat) (hpos : ∀ k, k ≤ N → 0 < n k)
+    (he : 0 < eps) (hea : eps ≤ a) (hab : a ≤ b) (hsep : eps * (b + eps) ^ (2 * N) < a ^ (2 * N + 1))
+    (hp : ∀ k l, k ≤ N → l < n k → p k l = 0 ∨ (a ≤ p k l ∧ p k l ≤ b))
+    (hq : ∀ k m l, k < N → m < n k → l < n (k+1) → q k m l = 0 ∨ (a ≤ q k m l ∧ q k m l ≤ b))
+    (hbig : PathsBelow (likTables n p q eps big false) N)
+    (r : List (Nat × ℝ)) (h : decode (likTables n p q eps big false) (N+1) = .ok r)
+    (σ : Nat → Nat) (hσ : ∀ k, k ≤ N → σ k < n k) (h0 : nzero p q σ N = 0) :
+    nzero p q (seqOf r) N = 0 := by
+  have := zero_factors_minimised n p q eps a b big N hpos he hea hab hsep hp hq hbig r h σ hσ
+  omega
+
+/-! ## The call as a whole: what `estimate` reads from and writes to the track (histories of calls)
+
+`TV.Hmm.estimate` (`Model/Hmm.lean`) is `HMM.estimate` with its front end: the flag of the object, the
+compilation of `STATES` and `OBS` from the track as it is when the call is made, the cost tables, the decoder
+above, and the writing of the two result features. -/
+section calls
+open TV.Hmm
+variable {β : Type}
+
+/-- **T5 `estimate_spec`.** One call on a track of `N+1` epochs (well-formed feature table, the observation
+features readable, at least one candidate per epoch) — whatever the track carried before, in particular
+`hmm_inference` / `hmm_cost` of an earlier decoding or of the user: no exception; the object's flag becomes
+`self.log or log`; afterwards `hmm_inference[k]` is the STATE object `S(track, k)[i_k]` and `hmm_cost[k]` the
+recorded cost, where `(i_k, cost_k)` is what the decoder returns on the cost tables of THIS call; every other
+feature is unchanged. So T1–T4 hold for what is read from the track after every call of a history. -/
+theorem estimate_spec [LinearOrder β] [Add β] [Neg β] (nm : Num β) (h : Obj β) (tr : Trk β) (obs : List String)
+    (log : Bool) (mode N : Nat) (hwf : tr.WF) (hsize : tr.size = N + 1) (OBS : List (List (ObsItem β)))
+    (hobs : (List.range tr.size).mapM (fun k => getObsK nm tr obs k mode) = .ok OBS)
+    (hS : ∀ k, k ≤ N → h.S tr k ≠ []) :
+    ∃ r tr', decode (tablesOf nm { h with log := h.log || log } tr ((List.range tr.size).map (h.S tr)) OBS) (N+1) = .ok r ∧
+      estimate nm h tr obs log mode = ({ h with log := h.log || log }, tr', none) ∧
+      tr'.WF ∧ tr'.size = tr.size ∧ (∀ n, tr.has n = true → tr'.has n = true) ∧
+      (∀ k, k ≤ N → tr'.get? "hmm_inference" k = some (.st ((h.S tr k).getD (seqOf r k) 0)) ∧
+        ∃ v, costAt r k = some v ∧ tr'.get? "hmm_cost" k = some (.num v)) ∧
+      (∀ n j, n ≠ "hmm_inference" → n ≠ "hmm_cost" → tr'.get? n j = tr.get? n j) :=
+  estimate_ok nm h tr obs log mode N hwf hsize OBS hobs hS
+
+/-- **T6 `estimate_optimal`** (end to end, `+` of an ordered additive commutative group). After the call the states
+read from `hmm_inference` are candidates of their epochs, they form a sequence of minimal cost among ALL candidate
+sequences for the cost tables of this call, and `hmm_cost` at the last epoch is that minimal cost. -/
+theorem estimate_optimal [AddCommGroup β] [LinearOrder β] [IsOrderedAddMonoid β] (nm : Num β) (h : Obj β)
+    (tr : Trk β) (obs : List String) (log : Bool) (mode N : Nat) (hwf : tr.WF) (hsize : tr.size = N + 1)
+    (OBS : List (List (ObsItem β)))
+    (hobs : (List.range tr.size).mapM (fun k => getObsK nm tr obs k mode) = .ok OBS)
+    (hS : ∀ k, k ≤ N → h.S tr k ≠ [])
+    (hbig : PathsBelow (tablesOf nm { h with log := h.log || log } tr ((List.range tr.size).map (h.S tr)) OBS) N) :
+    ∃ (i : Nat → Nat) (tr' : Trk β),
+      estimate nm h tr obs log mode = ({ h with log := h.log || log }, tr', none) ∧
+      (∀ k, k ≤ N → i k < (h.S tr k).length ∧ tr'.get? "hmm_inference" k = some (.st ((h.S tr k).getD (i k) 0))) ∧
+      tr'.get? "hmm_cost" N = some (.num
+        (cost (tablesOf nm { h with log := h.log || log } tr ((List.range tr.size).map (h.S tr)) OBS) i N)) ∧
+      ∀ σ : Nat → Nat, (∀ k, k ≤ N → σ k < (h.S tr k).length) →
+        cost (tablesOf nm { h with log := h.log || log } tr ((List.range tr.size).map (h.S tr)) OBS) i N
+          ≤ cost (tablesOf nm { h with log := h.log || log } tr ((List.range tr.size).map (h.S tr)) OBS) σ N := by
+  obtain ⟨r, tr', hd, he, _, _, _, hres, _⟩ := estimate_ok nm h tr obs log mode N hwf hsize OBS hobs hS
+  generalize ht : tablesOf nm { h with log := h.log || log } tr ((List.range tr.size).map (h.S tr)) OBS = t at *
+  have hn : ∀ k, k ≤ N → t.n k = (h.S tr k).length := by
+    intro k hk
+    subst ht
+    show (((List.range tr.size).map (h.S tr)).getD k []).length = _
+    rw [states_getD _ _ _ (by omega)]
+  have hpos : ∀ k, k ≤ N → 0 < t.n k := by
+    intro k hk
+    rw [hn k hk]
+    exact List.length_pos_iff.mpr (hS k hk)
+  have hadd : t.add = (· + ·) := by subst ht; rfl
+  have hv := (decoded_valid t N hpos r hd).2
+  refine ⟨seqOf r, tr', he, fun k hk => ⟨by rw [← hn k hk]; exact hv k hk, (hres k hk).1⟩, ?_, ?_⟩
+  · obtain ⟨v, hv1, hv2⟩ := (hres N (Nat.le_refl _)).2
+    have hc := (decoded_cost t N hpos hbig r hd).1 N (Nat.le_refl _)
+    rw [hv1] at hc
+    injection hc with hc
+    rw [hv2, hc]
+  · intro σ hσ
+    exact (decoded_optimal_add t hadd N hpos hbig r hd σ (fun k hk => by rw [hn k hk]; exact hσ k hk)).1
+
+/-- **T7 `estimate_twice`** (histories). Two calls one after the other on the same track — other object, other
+model, other observation features, other flag, other mode: after the second call the two result features hold the
+decoding of the SECOND call (its tables are compiled from the track as the first call left it, so observations
+edited in between, or `hmm_inference` of the first call used as an observation, are what the second call reads);
+nothing of the first result is left in them. -/
+theorem estimate_twice [LinearOrder β] [Add β] [Neg β] (nm : Num β) (h1 h2 : Obj β) (tr : Trk β)
+    (obs1 obs2 : List String) (log1 log2 : Bool) (mode1 mode2 N : Nat) (hwf : tr.WF) (hsize : tr.size = N + 1)
+    (OBS1 : List (List (ObsItem β)))
+    (hobs1 : (List.range tr.size).mapM (fun k => getObsK nm tr obs1 k mode1) = .ok OBS1)
+    (hS1 : ∀ k, k ≤ N → h1.S tr k ≠ []) :
+    ∃ tr1, estimate nm h1 tr obs1 log1 mode1 = ({ h1 with log := h1.log || log1 }, tr1, none) ∧
+      tr1.has "hmm_inference" = true ∧ tr1.has "hmm_cost" = true ∧
+      ∀ (OBS2 : List (List (ObsItem β))),
+        (List.range tr1.size).mapM (fun k => getObsK nm tr1 obs2 k mode2) = .ok OBS2 →
+        (∀ k, k ≤ N → h2.S tr1 k ≠ []) →
+        ∃ r2 tr2,
+          decode (tablesOf nm { h2 with log := h2.log || log2 } tr1 ((List.range tr1.size).map (h2.S tr1)) OBS2) (N+1) = .ok r2 ∧
+          estimate nm h2 tr1 obs2 log2 mode2 = ({ h2 with log := h2.log || log2 }, tr2, none) ∧
+          ∀ k, k ≤ N → tr2.get? "hmm_inference" k = some (.st ((h2.S tr1 k).getD (seqOf r2 k) 0)) ∧
+            ∃ v, costAt r2 k = some v ∧ tr2.get? "hmm_cost" k = some (.num v) := by
+  obtain ⟨r, tr1, _, he, w1, s1, _, hres, _⟩ := estimate_ok nm h1 tr obs1 log1 mode1 N hwf hsize OBS1 hobs1 hS1
+  have hhas : ∀ name, (tr1.get? name 0).isSome = true → tr1.has name = true := by
+    intro name hg
+    rw [has_iff_col?]
+    unfold Trk.get? at hg
+    cases hc : tr1.col? name with
+    | none => simp [hc] at hg
+    | some c => rfl
+  refine ⟨tr1, he, hhas _ (by rw [(hres 0 (Nat.zero_le _)).1]; rfl), ?_, ?_⟩
+  · obtain ⟨v, _, hv⟩ := (hres 0 (Nat.zero_le _)).2
+    exact hhas _ (by rw [hv]; rfl)
+  · intro OBS2 hobs2 hS2
+    obtain ⟨r2, tr2, hd2, he2, _, _, _, hres2, _⟩ :=
+      estimate_ok nm h2 tr1 obs2 log2 mode2 N w1 (by omega) OBS2 hobs2 hS2
+    exact ⟨r2, tr2, hd2, he2, hres2⟩
+end calls
+
 /-! Non-vacuity: a 3-epoch model over ℕ with 2, 1 and 2 candidate states (they differ per epoch; no state
 beyond the track, as in the driver), in which the cheapest state of epoch 0 is not on the optimal path. -/
 section example_
@@ -149,4 +306,40 @@ example : PathsBelow (likTables (fun _ => 2) (fun _ _ => 1) (fun _ _ _ => 1) 0 1
   subst this
   simp [likTables, costOf, cost]
 end example_
+
+/-! Non-vacuity of T4c and of the theorems about calls: the separation hypothesis for the code's guard, and a
+history of two calls on a track that already carries a feature called `hmm_inference` (evaluated by the kernel). -/
+section example_calls
+open TV.Hmm
+
+set_option exponentiation.threshold 400 in
+/-- the separation hypothesis of T4c holds for the code's guard `1e-300`, likelihoods in `[1e-10, 1]` and tracks of
+up to 11 epochs -/
+example : (1 / 10 ^ 300 : ℝ) * (1 + 1 / 10 ^ 300) ^ (2 * 10) < (1 / 10 ^ 10) ^ (2 * 10 + 1) := by norm_num
+
+private def nmZ : Num Int := { logf := fun x => x, eps := 0, big := 1000, zero := 0, idx := fun i => i }
+/-- a track of 2 epochs with an observation feature and a user feature called hmm_inference -/
+private def tr0 : Trk Int :=
+  { size := 2, cols := [("ya", [.num 0, .num 1]), ("hmm_inference", [.num 7, .num 7])], pos := [none, none] }
+/-- the observed value as a number -/
+private def yv : List (ObsItem Int) → Int
+  | [.cell (.num v)] => v
+  | _ => 0
+/-- model A prefers state `y`, model B prefers state `1 - y` (logs are given: cost = -value); two candidates 0, 1 -/
+private def hA : Obj Int :=
+  { S := fun _ _ => [0, 1], Q := fun _ _ _ _ => 0, P := fun s y _ _ => if (s : Int) = yv y then 0 else -1, log := true }
+private def hB : Obj Int :=
+  { S := fun _ _ => [0, 1], Q := fun _ _ _ _ => 0, P := fun s y _ _ => if (s : Int) = yv y then -1 else 0, log := false }
+
+example : tr0.WF := by intro c hc; simp [tr0] at hc; rcases hc with rfl | rfl <;> rfl
+example : ((estimate nmZ hA tr0 ["ya"] false 0).2.1.get? "hmm_inference" 0,
+           (estimate nmZ hA tr0 ["ya"] false 0).2.1.get? "hmm_inference" 1) = (some (.st 0), some (.st 1)) := by
+  decide +kernel
+/-- second decoding of the same track with another model, the flag given to `estimate`: the first result is replaced -/
+example : let tr1 := (estimate nmZ hA tr0 ["ya"] false 0).2.1
+          let r := estimate nmZ hB tr1 ["ya"] true 0
+          (r.1.log, r.2.2, r.2.1.get? "hmm_inference" 0, r.2.1.get? "hmm_inference" 1, r.2.1.get? "hmm_cost" 1)
+            = (true, none, some (.st 1), some (.st 0), some (.num 0)) := by
+  decide +kernel
+end example_calls
 end TV.C09
